@@ -587,3 +587,98 @@ def half_open(ctx, py, rule="PY-HALFOPEN"):
         ctx.ob(rule, "%s|%s~%s" % (qual, attr, bound), not bad, m.loc((bad or found)[0][1]),
                "%s: .%s %s %s" % (why, attr, op, bound) if not bad else "%s compared with %s using %s, but %s requires %s" % (attr, bound, bad[0][0], why, op))
     return n
+
+
+# =============================================================================================
+LL_RECEIVERS = {"_ll_tables": "TableCollection", "_ll_tree_sequence": "TreeSequence", "_ll_tree": "Tree", "ll_tables": "TableCollection",
+                "_ll_variant": "Variant", "_ll_ld_calculator": "LdCalculator"}
+
+
+def ll_positional(ctx, py, P, rule="PY-LL-POSITIONAL"):
+    ctx.rule(rule, "positional calls from the Python facade into _tskit pass, in slot i, the variable named like keyword i of the C "
+                   "method's kwlist (e.g. ll_table.add_row(flags, time, population, individual, metadata)); a swapped or shifted "
+                   "argument is a silently mis-assigned column/option")
+    from sa import modinfo
+    tu = P.tus["module"]
+    meths, _ = modinfo.method_tables(tu)
+    kw_of = {}
+    for tname, rows in meths.items():
+        cls = tname.replace("_methods", "")
+        for pyname, cfn in rows:
+            f = tu.funcs.get(cfn)
+            if f is None:
+                continue
+            pcs = modinfo.parse_calls(tu, f)
+            if pcs and pcs[0].kwlist:
+                kw_of[(cls, pyname)] = pcs[0].kwlist
+    n = 0
+    for mn in ("tables", "trees", "genotypes", "stats"):
+        m = py.mod(mn)
+        for qn, fn in m.funcs.items():
+            pycls = qn.split(".")[0]
+            for c in ast.walk(fn):
+                if not (isinstance(c, ast.Call) and isinstance(c.func, ast.Attribute)):
+                    continue
+                recv = dotted(c.func.value)
+                if recv is None:
+                    continue
+                last = recv.split(".")[-1]
+                cls = None
+                if last == "ll_table" and pycls.endswith("Table"):
+                    cls = pycls
+                elif last in LL_RECEIVERS:
+                    cls = LL_RECEIVERS[last]
+                if cls is None:
+                    continue
+                kws = kw_of.get((cls, c.func.attr))
+                if not kws or not c.args:
+                    continue
+                bad = []
+                checked = 0
+                for i, a in enumerate(c.args):
+                    if isinstance(a, ast.Starred) or i >= len(kws):
+                        break
+                    nm = a.id if isinstance(a, ast.Name) else None
+                    if nm is None:
+                        continue
+                    if nm in kws:
+                        checked += 1
+                        if kws[i] != nm:
+                            bad.append("slot %d receives `%s` but the C method expects `%s` there" % (i, nm, kws[i]))
+                if checked:
+                    n += 1
+                    ctx.ob(rule, "%s->%s.%s" % (qn, cls, c.func.attr), not bad, m.loc(c), "; ".join(bad) or "%d named positional arguments in place" % checked)
+    return n
+
+
+def alias_polarity(ctx, py, rule="PY-ALIAS-POLARITY"):
+    ctx.rule(rule, "every facade function that still accepts the deprecated impute_missing_data alias maps it to isolated_as_missing "
+                   "with the same (negated) polarity, on every path where the alias was supplied (sibling agreement)")
+    m = py.mod("trees")
+    n = 0
+    for qn, fn in m.funcs.items():
+        names, kwonly, _ = params_of(fn)
+        if "impute_missing_data" not in names + kwonly:
+            continue
+        assigns = [a for a in ast.walk(fn) if isinstance(a, ast.Assign) and any(isinstance(t, ast.Name) and t.id == "isolated_as_missing" for t in a.targets)
+                   and "impute_missing_data" in ast.unparse(a.value)]
+        ok = bool(assigns) and all(ast.unparse(a.value) == "not impute_missing_data" for a in assigns)
+        why = "isolated_as_missing = not impute_missing_data"
+        if ok:
+            # the mapping must be control-dependent only on "impute_missing_data is not None" (and the precedence test on isolated_as_missing)
+            pm = parents_map(fn)
+            for a in assigns:
+                p = pm.get(a)
+                conds = []
+                while p is not None and p is not fn:
+                    if isinstance(p, ast.If):
+                        conds.append(ast.unparse(p.test))
+                    p = pm.get(p)
+                okc = all(("impute_missing_data is not None" in c) or ("isolated_as_missing is None" in c) for c in conds)
+                if not okc:
+                    ok, why = False, "alias mapped only under %s" % conds
+        else:
+            why = "alias mapping is %s" % [ast.unparse(a.value) for a in assigns]
+        n += 1
+        ctx.ob(rule, qn, ok, m.loc(assigns[0] if assigns else fn), why)
+    return n
